@@ -291,7 +291,7 @@ def ob_handlers(run, interp):
                     alts = []
                     for req in (name_t, z3.StringVal("__exit__"), z3.StringVal("__cmp__")):
                         allowed, twin, twin_name = spec.decision(cfgt, "allow_getattr", req, has, safe)
-                        alts.append(spec.result_ok(allowed, twin, twin_name, req, t))
+                        alts.append(spec.result_ok(allowed, twin, twin_name, req, t, has(req)))
                         if e[0] == "getattr":
                             alts.append(z3.Or(t == req, t == twin_name))      # existence probes of the policy check itself
                     conds.append(z3.Or(*alts))
